@@ -202,15 +202,25 @@ where
     }
 
     /// Process a key bundle received from the network.
+    ///
+    /// Returns `None` if this key bundle was already registered for the author, in this case
+    /// nothing changes.
     pub async fn process_key_bundle(
         &mut self,
         author: MemberId,
         key_bundle: &LongTermKeyBundle,
-    ) -> Result<Event<C>, IdentityError<F, C>> {
+    ) -> Result<Option<Event<C>>, IdentityError<F, C>> {
         key_bundle.verify()?;
+
+        // If we already processed this message return here.
+        let key_registry_y = self.key_registry().await?;
+        if KeyRegistry::has_longterm_bundle(&key_registry_y, &author, key_bundle) {
+            return Ok(None);
+        }
+
         let member = Member::new(author, key_bundle.clone());
         self.register_member(&member).await?;
-        Ok(Event::KeyBundle { author })
+        Ok(Some(Event::KeyBundle { author }))
     }
 
     pub async fn forge(&mut self, args: SpacesArgs<C>) -> Result<F::Message, IdentityError<F, C>> {
